@@ -13,14 +13,15 @@ from c03 import o_glob, o_lower, swapcase_irc
 
 PROPERTY = 'C04'
 MANIFEST = {
- 'level_text': 'Lean 4 theorems about a model of ircdb.UsersDictionary (user records, hostmask sets, logins with timeout, _hostmaskCache and _nameCache with the CacheDict clear-when-full behaviour), kernel-checked: for every history of register / hostmask add / remove / identify / unidentify / changename / set secure / users.conf load / delUser / clock ticks / lookups, every lookup answers exactly what the cache-free, effect-free recomputation on the current records answers (invariant: a cached hostmask is matched by no other user, reverse entries are complete); an answer id is a user one of whose patterns globs the hostmask or who has an unexpired login from exactly that hostmask, and no second user matches; a secure account needs a pattern; an accepted setUser leaves no literal overlap between the masks of two users; the glob matcher equals a declarative match relation and is invariant under IRC case folding. The register / identify / unidentify / hostmask add / hostmask remove / set secure / whoami commands of the User plugin (converters and guards, password test as a parameter) are modelled on top: no dictionary operation but identify creates a login, the plugin runs identify only after the password test of the account for the exact sender, hence every login entry in every reachable state is backed by an identify WITH THE PASSWORD from that exact hostmask (ghost log), and a recognised sender matches a registered mask or identified with the password within the timeout. The table-like constants (cache size, unWildcard set, minimum, the hostmask regexp shape, rfc1459 table) are re-extracted from /repo on every run; the model is tied to src/ircdb.py / src/ircutils.py by a differential run that compares outcomes, records and both caches, and evaluates the property statement on the implementation.',
- 'level_note': 'Trusted: Lean kernel; axioms propext/Classical.choice/Quot.sound only; the extractors; the correspondence harness. Modelled and proved: getUserId (both paths, cache hit re-validation, duplicate removal incl. the removeHostmask(True) quirk), getUser, setUser, delUser, newUser, invalidateCache, checkHostmask, addAuth, clearAuth, addHostmask, removeHostmask, the plugin call sequences as operations, glob matcher, isUserHostmask. Not modelled: lazy physical removal of expired logins (unobservable: every read filters by liveness; harness compares live logins); the salted password hash (a parameter pwOk of the plugin model; the driver instantiates it with equality of the secrets, the harness uses the real salted hashes of the bot); the per-message lookups of the sender that the bot does of the sender outside the command (checkIgnored, command capabilities, reply options: cache effects only unless the sender matches two accounts, which the plugin stream avoids); the nick fallback of the otherUser converter; `hostmask remove all`; re.I / str.lower() outside ASCII (generated names/hostmasks stay in the modelled alphabet); user names that look like hostmasks are outside the history theorem (inside the correspondence). KNOWN FINDING: two users may own wildcard masks with a common instance (the overlap test is literal); proved as a witness history, replayed every run.',
+ 'level_text': 'Lean 4 theorems about a model of ircdb.UsersDictionary (user records, hostmask sets, logins with timeout, _hostmaskCache and _nameCache with the CacheDict clear-when-full behaviour), kernel-checked: for every history of register / hostmask add / remove / identify / unidentify / changename / set secure / users.conf load / delUser / clock ticks / lookups, every lookup answers exactly what the cache-free, effect-free recomputation on the current records answers (invariant: a cached hostmask is matched by no other user, reverse entries are complete); an answer id is a user one of whose patterns globs the hostmask or who has an unexpired login from exactly that hostmask, and no second user matches; a secure account needs a pattern; two accounts never own masks with a hostmask in common (invariant of every history; the overlap test hostmaskPatternsIntersect is proved complete and sound); the glob matcher equals a declarative match relation and is invariant under IRC case folding. The register / identify / unidentify / hostmask add / hostmask remove / set secure / whoami commands of the User plugin (converters and guards, password test as a parameter) are modelled on top: no dictionary operation but identify creates a login, the plugin runs identify only after the password test of the account for the exact sender, hence every login entry in every reachable state is backed by an identify WITH THE PASSWORD from that exact hostmask (ghost log), and a recognised sender matches a registered mask or identified with the password within the timeout. The table-like constants (cache size, unWildcard set, minimum, the hostmask regexp shape, rfc1459 table) are re-extracted from /repo on every run; the model is tied to src/ircdb.py / src/ircutils.py by a differential run that compares outcomes, records and both caches, and evaluates the property statement on the implementation.',
+ 'level_note': 'Trusted: Lean kernel; axioms propext/Classical.choice/Quot.sound only; the extractors; the correspondence harness. Modelled and proved: getUserId (both paths, cache hit re-validation, duplicate removal incl. the removeHostmask(True) quirk), getUser, setUser, delUser, newUser, invalidateCache, checkHostmask, addAuth, clearAuth, addHostmask, removeHostmask, the plugin call sequences as operations, glob matcher, isUserHostmask. Not modelled: lazy physical removal of expired logins (unobservable: every read filters by liveness; harness compares live logins); the salted password hash (a parameter pwOk of the plugin model; the driver instantiates it with equality of the secrets, the harness uses the real salted hashes of the bot); the per-message lookups of the sender that the bot does of the sender outside the command (checkIgnored, command capabilities, reply options: cache effects only unless the sender matches two accounts, which the plugin stream avoids); the nick fallback of the otherUser converter; `hostmask remove all`; str.lower() of account names outside ASCII (hostmask matching is ASCII-only case-insensitive since the re.A repair and modelled exactly for all of Unicode); user names that look like hostmasks are outside the history theorem (inside the correspondence). The former finding (masks with a common instance accepted) is repaired: setUser uses hostmaskPatternsIntersect, proved complete and sound, and no history leaves two accounts with overlapping masks.',
  'technique': 'Lean 4 proof (state-machine invariant over operation histories, refinement to the cache-free lookup) + constant extraction + differential correspondence incl. cache contents',
  'design_ref': 'DESIGN.md §6 C04',
 }
 THEOREMS = ['C04.cache_transparent', 'C04.getUserId_sound', 'C04.getUserId_unique', 'C04.recognise_secure',
             'C04.setUser_no_literal_overlap', 'C04.setUser_no_common_instance', 'C04.semantic_overlap_refused',
-            'C04.intersect_complete', 'C04.intersect_sound', 'C04.inv_step', 'C04.inv_run',
+            'C04.intersect_complete', 'C04.intersect_sound', 'C04.step_noCommon', 'C04.no_overlapping_masks',
+            'C04.two_pattern_matches_same_account', 'C04.plugin_no_overlapping_masks', 'C04.inv_step', 'C04.inv_run',
             'C04.reachable_step', 'C04.getUserId_agrees', 'C04.revOK_reachable', 'C04.checkCapability_cache_free',
             'C04.glob_iff_matches', 'C04.glob_case', 'C04.patCharMatch_eq_cls',
             # the User plugin: logins are backed by the account's password
